@@ -384,3 +384,25 @@ macro_rules! sym_parser_dir {
         }
     };
 }
+
+// ------------------------------------------------------------------ drop ledger (C15)
+
+/// `DROPS[id]` counts how often the token with that id was dropped.
+pub static mut DROPS: [u8; 24] = [0; 24];
+
+/// A non-Copy value with an identity (`id`) and a payload that must arrive bit-for-bit.
+#[derive(Debug)]
+pub struct Tok(pub u8, pub u16);
+
+impl Drop for Tok {
+    fn drop(&mut self) {
+        unsafe {
+            DROPS[self.0 as usize] += 1;
+        }
+    }
+}
+
+#[inline]
+pub fn drops(id: usize) -> u8 {
+    unsafe { DROPS[id] }
+}
